@@ -633,6 +633,14 @@ def stage_refusal(ctx, pq, w):
         col2 = dict(name="c", kind=kind, row_opt=True, elem_opt=True, ptype="int64", key_ptype="utf8", top_rep=True)
         layout2 = {"c/elem": lay1} if kind == "list" else {"c/key": lay1, "c/value": lay1}
         cases.append(("%s group itself declared repeated (max repetition level 2)" % kind.upper(), col2, r, layout2, ["NotImplementedError"]))
+    # (a') nested collections of depth 2: LIST<LIST<int64>> and LIST<MAP<utf8, int64>> (C15_nested_collection_refused)
+    for kind in ("list", "map"):
+        col = dict(name="a.list.element", kind=kind, row_opt=True, elem_opt=True, ptype="int64", key_ptype="utf8",
+                   structs=[{"name": "a", "opt": True, "annot": "LIST"}, {"name": "list", "opt": False, "rep": True}])
+        r = rows if kind == "list" else [[["a", 1], ["b", None]], None, [], [["c", 3]]]
+        layout = {"a.list.element/elem": lay1} if kind == "list" else {"a.list.element/key": lay1, "a.list.element/value": lay1}
+        cases.append(("LIST<%s> (nested collection of depth 2)" % ("LIST<int64>" if kind == "list" else "MAP<utf8, int64>"), col, r, layout,
+                      ["NotImplementedError"]))
     # (b) a v2 page that starts inside a row (v2 pages hold whole rows)
     col = dict(name="c", kind="list", row_opt=True, elem_opt=True, ptype="int64")
     for dictionary in (False, True):
